@@ -1,6 +1,7 @@
 package c16
 
 import (
+	"math/big"
 	"fmt"
 	"math"
 	"strings"
@@ -642,7 +643,9 @@ func TestTolerance(t *testing.T) {
 		}
 		// inert on other kinds
 		if len(d.floats)+len(d.times)+len(d.durs) == 0 {
-			if pe := proto.Equal(stripChangeTime(x), stripChangeTime(y)); got != pe {
+			// (a duration or timestamp written in two ways - {nanos:-1} and {seconds:-1 nanos:999999999} - is a difference of
+			// zero inside a compared kind, not a difference outside: compare canonical forms)
+			if pe := proto.Equal(canonTimes(stripChangeTime(x)), canonTimes(stripChangeTime(y))); got != pe {
 				t.Fatalf("%s: pair differs only outside the compared kinds but verdict %v != proto.Equal %v\n x={%s}\n y={%s}", desc, got, pe, txt(x), txt(y))
 			}
 			lib.Ev.Class("tolerance:no diff of compared kinds (inert check)")
@@ -682,5 +685,52 @@ func TestDurationWithinP(t *testing.T) {
 			}
 		}
 		lib.Ev.Case("", nil)
+	})
+}
+
+// canonTimes returns a copy of m in which every Duration and Timestamp is rewritten in its canonical form (seconds and
+// nanos of one sign, nanos within a second).
+func canonTimes(m proto.Message) proto.Message {
+	if m == nil || !m.ProtoReflect().IsValid() {
+		return m
+	}
+	c := proto.Clone(m)
+	canonTimesIn(c.ProtoReflect())
+	return c
+}
+
+func canonTimesIn(m pref.Message) {
+	switch m.Descriptor().FullName() {
+	case "google.protobuf.Duration", "google.protobuf.Timestamp":
+		fs := m.Descriptor().Fields()
+		sec, ns := m.Get(fs.ByName("seconds")).Int(), m.Get(fs.ByName("nanos")).Int()
+		total := new(big.Int).Add(new(big.Int).Mul(big.NewInt(sec), big.NewInt(1e9)), big.NewInt(ns))
+		q, r := new(big.Int).QuoRem(total, big.NewInt(1e9), new(big.Int)) // truncated: remainder has the sign of the total
+		if m.Descriptor().FullName() == "google.protobuf.Timestamp" && r.Sign() < 0 {
+			q.Sub(q, big.NewInt(1))
+			r.Add(r, big.NewInt(1e9))
+		}
+		if q.IsInt64() {
+			m.Set(fs.ByName("seconds"), pref.ValueOfInt64(q.Int64()))
+			m.Set(fs.ByName("nanos"), pref.ValueOfInt32(int32(r.Int64())))
+		}
+		return
+	}
+	m.Range(func(fd pref.FieldDescriptor, v pref.Value) bool {
+		switch {
+		case fd.IsMap():
+			if fd.MapValue().Message() != nil {
+				v.Map().Range(func(_ pref.MapKey, mv pref.Value) bool { canonTimesIn(mv.Message()); return true })
+			}
+		case fd.IsList():
+			if fd.Message() != nil {
+				for i := 0; i < v.List().Len(); i++ {
+					canonTimesIn(v.List().Get(i).Message())
+				}
+			}
+		case fd.Message() != nil:
+			canonTimesIn(v.Message())
+		}
+		return true
 	})
 }
